@@ -9,6 +9,10 @@ from rules import common
 from rules.C07 import _key_is
 
 EXPLANATION = (
+    "Typestate analysis of compile() (rule C13.T1): the statements of compile() are interpreted over an abstract "
+    "state that tracks one arbitrary module through every local map, with every component call returning or raising "
+    "any package error class, every option setting and every iteration order; invariants are evaluated at the "
+    "component calls and at every return (see rules/compile_ts.py INV). "
     "CFG/typestate rules with may-raise edges on FileWriter.putData, PyFileWriter.putData and CallbackWriter.putData: "
     "the dryRun return dominates every filesystem mutator (and the user callback); the destination path flows only "
     "into the second argument of os.rename (plus, after the rename, the byte-compile stage) - never into open/"
@@ -22,7 +26,7 @@ ASSUMPTIONS = [
     "os.rename within one directory is atomic (kernel property); durability (fsync) is not part of the statement",
     "mkstemp returns a unique name, which is what makes concurrent writers safe (structural argument only)",
 ]
-TECHNIQUE = 'CFG dominance + typestate of (fd, temp path, destination path) over the writer functions'
+TECHNIQUE = 'CFG dominance + typestate of (fd, temp path, destination path) over the writer functions; typestate abstract interpretation of compile() (path-sensitive dataflow over a finite per-module domain, rules/compile_ts.py)'
 
 MUTATORS = ('os.makedirs', 'os.mkdir', 'tempfile.mkstemp', 'os.write', 'os.close', 'os.rename', 'os.replace',
             'os.unlink', 'os.remove', 'open', 'os.open', 'os.fdopen', 'py_compile.compile', 'os.rmdir', 'os.chmod',
@@ -562,6 +566,14 @@ def r11_guard_polarity_and_name(chk):
     chk.floor('C13.R11', 20, 'two writers')
 
 
+
+def t1_typestate(chk):
+    """typestate analysis of compile() (rules/compile_ts.py): end-to-end bookkeeping invariants for an arbitrary
+    module over every outcome of every component call"""
+    from rules import compile_ts
+    compile_ts.ts_rule(chk, 'C13.T1', ['nowrite-switch'])
+
+
 RULES = [r1_dryrun, r2_typestate, r3_complete_write, r4_cleanup, r5_compile_stage, r6_siblings, r7_callback_writer, r8_argument_agreement,
          r9_failure_after_rename_leaves_no_file, r10_wellformedness,
-         r11_guard_polarity_and_name]
+         r11_guard_polarity_and_name, t1_typestate]
